@@ -16,7 +16,7 @@ func Check(id, tier string) int {
 		return 2
 	}
 	switch id {
-	case "C01", "C02", "C03", "C04", "C05", "C06", "C07", "C08", "C09", "C10", "C20":
+	case "C01", "C02", "C03", "C04", "C05", "C06", "C07", "C08", "C09", "C10", "C14", "C20":
 		return CheckCodec(cfg, tier)
 	}
 	fmt.Fprintf(os.Stderr, "verif: no driver for %s\n", id)
@@ -38,7 +38,7 @@ func ReplayFile(file string) int {
 		return 2
 	}
 	switch rp.Property {
-	case "C01", "C02", "C03", "C04", "C05", "C06", "C07", "C08", "C09", "C10", "C20":
+	case "C01", "C02", "C03", "C04", "C05", "C06", "C07", "C08", "C09", "C10", "C14", "C20":
 		return replayCodec(&rp, file)
 	}
 	fmt.Fprintf(os.Stderr, "verif: no replay driver for %s\n", rp.Property)
@@ -56,7 +56,11 @@ func replayCodec(rp *proto.Replay, file string) int {
 		err = w.PatchGoMod()
 	}
 	if err == nil {
-		err = w.InstrumentRepo(codecRepoInstr)
+		instr := codecRepoInstr
+		if cfg := Props[rp.Property]; cfg != nil && cfg.RepoInstr != nil {
+			instr = cfg.RepoInstr
+		}
+		err = w.InstrumentRepo(instr)
 	}
 	if err != nil {
 		fmt.Fprintln(os.Stderr, "verif:", err)
@@ -69,6 +73,9 @@ func replayCodec(rp *proto.Replay, file string) int {
 			masks = []int{rp.Scenario.Mask}
 		}
 		specs = append(specs, ProgSpec{ID: p.ID, Schema: p.Schema, Bop: p.Bop, Masks: masks, Old: p.Old, OldBop: p.OldBop})
+	}
+	if cfg := Props[rp.Property]; cfg != nil && (cfg.TextOnly || cfg.NoProgs) {
+		specs = nil
 	}
 	_, node, err := w.BuildPrograms(specs, genInstr, nil)
 	if err != nil {
